@@ -5,10 +5,12 @@ from harness import tlc, par, dsreplay
 
 
 def run_family(ctx, family, fmt="text", variant=None, fresh=True, timeout_s=900, limit=None, nontrivial_key=None,
-               module="MC_Dataset", seed_sample=None, always_nontrivial=False, nontrivial_fn=None, cli_lists=0):
+               module="MC_Dataset", seed_sample=None, always_nontrivial=False, nontrivial_fn=None, cli_lists=0, select_fn=None):
     res = tlc.run(module, "%s_%s" % (module, family), tag="%s_%s_%s" % (ctx.pid, module, family), timeout_s=timeout_s)
     ctx.add_tlc("%s/%s" % (module, family), res, {"Family": family})
     objs = res.emitted
+    if select_fn:
+        objs = [o for o in objs if select_fn(o)]
     if limit and len(objs) > limit:
         import random
         rng = random.Random(ctx.seed if seed_sample is None else seed_sample)
